@@ -374,7 +374,7 @@ func genConc(prop string, seed uint64, tier string) *ConcScenario {
 		case 0:
 			g.mapContainer(sc, []string{"map"})
 		case 1:
-			g.mapContainer(sc, []string{"mapof_string_any", "mapof_int_ptr"})
+			g.mapContainer(sc, []string{"mapof_string_any", "mapof_int_ptr", "mapof_any_int64"})
 		default:
 			family = "cache"
 		}
